@@ -103,7 +103,7 @@ func seqDiff(want, got []proto.Message, prefixOnly bool, bodyFields ...string) (
 	}
 	for i := range got {
 		if got[i] == nil || !proto.Equal(want[i], got[i]) {
-			d := fmt.Sprintf("message %d differs:\n want %s\n got  %s", i, shortMsg(want[i]), shortMsg(got[i]))
+			d := fmt.Sprintf("message %d differs%s:\n want %s\n got  %s", i, fieldDiff(want[i], got[i]), shortMsg(want[i]), shortMsg(got[i]))
 			if got[i] != nil && equalModuloNullValue(want[i], got[i], bodyFields) {
 				if kind == "" {
 					diff, kind = d, "value-null"
@@ -322,4 +322,34 @@ func mixed(fc []bool, comp string) bool {
 		}
 	}
 	return false
+}
+
+// fieldDiff names the top-level fields in which two messages differ.
+func fieldDiff(a, b proto.Message) string {
+	if a == nil || b == nil {
+		return ""
+	}
+	ma, mb := a.ProtoReflect(), b.ProtoReflect()
+	if ma.Descriptor() != mb.Descriptor() {
+		return ""
+	}
+	var names []string
+	fs := ma.Descriptor().Fields()
+	for i := 0; i < fs.Len(); i++ {
+		fd := fs.Get(i)
+		x, y := ma.New(), mb.New()
+		if ma.Has(fd) {
+			x.Set(fd, ma.Get(fd))
+		}
+		if mb.Has(fd) {
+			y.Set(fd, mb.Get(fd))
+		}
+		if !proto.Equal(x.Interface(), y.Interface()) {
+			names = append(names, fmt.Sprintf("%s (want %s, got %s)", fd.Name(), clipS(shortMsg(x.Interface())), clipS(shortMsg(y.Interface()))))
+		}
+	}
+	if len(names) == 0 {
+		return ""
+	}
+	return " in " + fmt.Sprint(names)
 }
